@@ -156,6 +156,7 @@ type Interp struct {
 	deadlockOK  bool
 	hangIsViolation bool
 	failClass   string
+	confirmModel map[string]uint64
 	timerByCell map[*Cell]*Timer
 	crcPoly     map[*Cell]uint32
 }
